@@ -10,6 +10,16 @@ CHECKS = {
         technique='explicit enumeration of all document terms <= K nodes x all (width, ribbon) pairs x both strategies on the real engine; membership of each observed SDoc stream in the fully enumerated layout set of the reference semantics',
         text='Bounded-exhaustive model checking of the real layout engine against an executable denotational semantics of the combinator algebra: every document up to the node bound, every integer width/ribbon pair up to the flat length + 2 and both strategies are executed, and each output must be a member of the enumerated layout set. A for-all statement over documents and configurations is exactly what exhaustive small-scope enumeration decides; every explored trace is an implementation trace.',
         note='trusted: the reference semantics in mc/docalg.py (about 100 lines, written from the property statement); bound: documents <= 5 (quick) / 6 (thorough) nodes plus a reduced alphabet one node deeper; documents outside the bound are not covered'),
+    'C05': dict(
+        category='model_checking', design_ref='DESIGN.md 4/C05',
+        technique='explicit enumeration of all classic-algebra documents <= K nodes x all (width, ribbon) pairs x both strategies on the real engine; per-group decisions recovered through the enumerated reference layout set; line-length invariant checked for every necessarily-flat group',
+        text='Every classic-algebra document up to the node bound is laid out by the real engine at every integer width/ribbon pair; the flat/broken decision of each group is recovered from the output through the reference semantics (flat in every consistent assignment), and for each such group the line it sits on must end within min(width, indentation + ribbon). An off-by-one in the fitting predicate or a wrong ribbon formula shows at width 1 already, which exhaustive small-scope enumeration reaches and pinned examples do not.',
+        note='trusted: reference semantics in mc/docalg.py and the decision recovery in mc/checks/_decisions.py; bound: <= 6 nodes (quick) / 7 (thorough); fill and user flat_choice are outside the property'),
+    'C06': dict(
+        category='model_checking', design_ref='DESIGN.md 4/C06',
+        technique='same exhaustive enumeration as C05; every necessarily-broken group without a forced break must be justified by a reference linearisation of its continuation (overflow, smart look-ahead overflow, or a later always_break); plus exhaustive width sweep around the one-line length of every corpus value',
+        text='For every enumerated document, configuration and strategy, each group that the output proves broken and that contains no forced break must have a justification computed on the reference term (not by calling the implementation predicate). For values, every corpus value whose unbounded rendering is one line of L columns must print as that line at all widths/ribbons in L..L+2, 2L, 200. Eager breaking (off-by-one at exact fit, ribbon applied from the wrong origin) yields valid text that no pinned test notices; the enumeration reaches exact-fit configurations for every small document.',
+        note='trusted: reference linearisation in mc/checks/_decisions.py (permissive where the statement is silent: a hoisted always_break later on the line also counts as justification); bound as C05'),
 }
 
 ALL = ['C%02d' % i for i in range(1, 21)]
